@@ -277,6 +277,25 @@ def Prog.allIn : Prog α → List Nat
   | .prim p r => p.ins.map (·.sid) ++ r.allIn
   | .sub i r => (i.allIn.filter (fun s => !i.allOut.contains s)) ++ r.allIn
 
+/-! decidable well-ordering predicates of a program (hypotheses of the chain-rule theorems of C02;
+    evaluated by the driver on every generated program) -/
+
+/-- all entries written by the modules of a list, in order (with multiplicity) -/
+def outEnts (ps : List (Prim α)) : List Nat := ps.flatMap (fun p => entsOf p.outs)
+
+/-- every entry read by a module is written by an EARLIER module (`before`) or by no module at all
+    (`all` = every written entry of the program) -/
+def rawFrom (before all : List Nat) : List (Prim α) → Bool
+  | [] => true
+  | p :: ps => (entsOf p.ins).all (fun e => before.contains e || !all.contains e)
+      && rawFrom (before ++ entsOf p.outs) all ps
+
+/-- read-after-write ordering of a program (nested networks flattened) -/
+def Prog.rawOrdered (g : Prog α) : Bool := rawFrom [] (outEnts g.flat) g.flat
+
+/-- single assignment at entry granularity, decidable form: no entry is written twice -/
+def Prog.ssaEntries (g : Prog α) : Bool := decide (outEnts g.flat).Nodup
+
 def Prog.sigOut (g : Prog α) : List Nat := g.allOut.eraseDups
 def Prog.sigIn (g : Prog α) : List Nat := (g.allIn.filter (fun s => !g.allOut.contains s)).eraseDups
 
